@@ -92,7 +92,7 @@ def _run(ctx):
         b = F.fn(fn)
         for c in lib.calls_named(b, r"complete::tag$"):
             k = lib._const_bytes_through(b, c.args[0])
-            if k:
+            if k and re.match(rb"^[A-Za-z]+$", k):      # operator keywords (separators such as CR LF are not syntax the encoder must mention)
                 special.add(k)
     ctx.floor("R-SIB", "special operator tags in the parser", len(special), 3)
     enc_consts = set()
@@ -113,7 +113,61 @@ def _run(ctx):
     ctx.ob("R-SIB", "inline-image|Content::encode", not missing, "encoder mentions %s" % sorted(special), enc.where(),
            what="the content parser gives %s special syntax (inline image: dictionary entries, ID, raw data, EI) but Content::encode never mentions %s: a decoded inline image is re-encoded as an ordinary operation that does not decode"
                 % (sorted(x.decode() for x in special), [x.decode() for x in missing]))
+    # what Content::encode writes without going through Writer::write_object: constants, the operator text and the raw image
+    # data — nothing else (a dictionary key, a name or a string written raw would lose its escaping)
+    rawvals = []
+    for x in lib.local_scope(F, enc):
+        for tk in lib.out_tokens(x):
+            if tk[0] != "val":
+                continue
+            o_ = lib.origin_local(F, x, tk[1]) if tk[1] is not None else None
+            last = [e.get("n") for e in (o_[2] if o_ else []) if isinstance(e, dict) and "f" in e and e.get("loc")]
+            if not last or last[-1] not in ("operator", "content"):
+                rawvals.append(lib.val_source(x, tk[1]))
+    ctx.ob("R-SIB", "raw-writes|Content::encode", not rawvals, "only the operator text and the image data are written without Writer::write_object", enc.where(),
+           what="Content::encode writes %s straight to the buffer, past Writer::write_object: names and strings written that way lose their escaping (`/A#20B` comes out as `/A B`) and the content no longer decodes to the same operations" % rawvals)
+    # inline images: after `ID` exactly one white-space character belongs to the syntax (ISO 32000-1 8.9.7) — the image data may
+    # begin with white-space bytes, so the parser after the `ID` tag must not be a take-while over white space
+    ii = F.fn("parser::inline_image_impl")
+    iscope = lib.local_scope(F, ii)
+    nid = 0
+    lang = None
+    for x in iscope:
+        for c in x.calls:
+            if not re.search(r"nom::sequence::pair$", c.fn or "") or len(c.args) != 2:
+                continue
+            d0 = x.def_rv(c.args[0])
+            if not (d0 and d0[2] == "call" and (d0[3]["f"].get("fn") or "").endswith("complete::tag") and lib._const_bytes_through(x, d0[3]["args"][0]) == b"ID"):
+                continue
+            nid += 1
+            lang = lib.nom_language(x, c.args[1])
+    one = {b" ", b"\t", b"\r", b"\n"}
+    oks = nid == 1 and lang is not None and {b" ", b"\n"} <= lang and lang <= one | {b"\r\n"}
+    ctx.ob("R-TABLE", "inline-image|one-separator-after-ID", oks, "the `ID` tag is followed by a parser that takes one white-space byte (or CR LF): %s" % (sorted(lang) if lang is not None else "?"), ii.where(),
+           what="after `ID` the content parser can take more than the one separator (it accepts %s): image data that begins with a white-space byte loses it, the data is shifted and the content stream changes or no longer decodes"
+                % (sorted(lang) if lang is not None else "an unbounded run (or a parser the rule does not know)"))
+    # ... and the colour space names of Table 93 (full names and abbreviations) are all accepted
+    ids = F.fn("parser::image_data_stream")
+    names = set()
+    for x in lib.local_scope(F, ids):
+        preds = {}
+        for bi in range(x.n):
+            for y in x.succ[bi]:
+                preds.setdefault(y, []).append(bi)
+        for bi in range(x.n):
+            for via in [None] + preds.get(bi, []):
+                for kk, v in lib.slice_matches(x, bi, via=via).items():
+                    if isinstance(v, bytes):
+                        names.add(v)
+    want = {b"DeviceGray", b"G", b"DeviceRGB", b"RGB", b"DeviceCMYK", b"CMYK"}
+    ctx.ob("R-TABLE", "inline-image|colour-space-names", want <= names, "inline images accept %s" % sorted(n.decode("latin1") for n in names & want), ids.where(),
+           what="image_data_stream does not accept the colour space name(s) %s of ISO 32000-1 Table 93: a content stream with such an inline image does not decode" % sorted(n.decode() for n in want - names))
     ctx.extra["exhaustive_over"] = "256 byte values for every byte-class obligation"
+
+
+def op_const_(o):
+    from mir import op_const
+    return op_const(o)
 
 
 def run(ctx):
